@@ -15,6 +15,7 @@ type Isolated struct {
 	errors   []error
 	errorsMU sync.Mutex
 	parent   app.ContextScope
+	stopOnce sync.Once
 }
 
 // NewIsolated create new isolated context scope instance
@@ -69,9 +70,9 @@ func (scp *Isolated) Kill() {
 
 // Stop stop the scope context without error
 func (scp *Isolated) Stop() {
-	if !scp.IsDone() {
+	scp.stopOnce.Do(func() {
 		close(scp.done)
-	}
+	})
 }
 
 // Err return cumulative error if the scope context contains any error
